@@ -253,3 +253,50 @@ func toError(e interface{ Error() string }) error {
 	}
 	return e
 }
+
+// VF_C09_AfterSubscribe: a client that entered by Subscribe or SubscribeOrCreate
+// runs a transaction whose body fails: identity (DUID), value and operation
+// identifiers are as before, and the client keeps syncing with the server.
+func VF_C09_AfterSubscribe() {
+	w := vfNewWorld()
+	w.seedCollection(vfCol, 1)
+	a, b := w.newPeer("a", vfCUIDx), w.newPeer("b", vfCUIDy)
+	a.cnt = a.cli.CreateCounter(vfKey, a.handlers())
+	_, _ = a.cnt.IncreaseBy(1)
+	vf.Assert(a.sync() == nil, "creator syncs")
+	mode := vf.Choice("entry", 2)
+	vf.Tag("entry", mode)
+	if mode == 0 {
+		b.cnt = b.cli.SubscribeCounter(vfKey, b.handlers())
+	} else {
+		b.cnt = b.cli.SubscribeOrCreateCounter(vfKey, b.handlers())
+	}
+	vf.Assert(b.sync() == nil && b.cnt.Get() == 1, "subscriber syncs")
+	if vf.Choice("op-before", 2) == 1 {
+		_, _ = b.cnt.IncreaseBy(100)
+		vf.Assert(b.sync() == nil, "subscriber pushes")
+	}
+	duid0 := orda.VFDUID(b.cnt)
+	val0 := b.cnt.Get()
+	_, _, seq0, _ := orda.VFSyncState(b.cnt)
+	vf.Assert(duid0 == orda.VFDUID(a.cnt), "C13 the subscriber adopted the datatype's id")
+	terr := b.cnt.Transaction("fails", func(tx orda.CounterInTx) error {
+		_, _ = tx.IncreaseBy(5)
+		return errors.ClientSync.New(nil, "body failed")
+	})
+	vf.Reach("rolled-back")
+	vf.Assert(terr != nil, "C09 the failing transaction reports the error")
+	_, _, seq1, pend := orda.VFSyncState(b.cnt)
+	vf.Assert(b.cnt.Get() == val0 && pend == 0, "C09 a failed transaction leaves value and pending operations as they were")
+	vf.Assert(seq1 == seq0, "C09/C15 a failed transaction leaves the next operation identifier as it was")
+	vf.Assert(orda.VFDUID(b.cnt) == duid0, "C09 a failed transaction leaves the datatype's identity as it was")
+	// and the client goes on working with the server
+	_, _ = b.cnt.IncreaseBy(10)
+	errs0 := b.errs
+	vf.Assert(b.sync() == nil && b.errs == errs0, "C09 the client still syncs after the failed transaction")
+	_, _, _, pend = orda.VFSyncState(b.cnt)
+	vf.Assert(pend == 0, "C09 the operation issued after the failed transaction is accepted by the server")
+	vf.Assert(a.sync() == nil && a.cnt.Get() == val0+10 && b.cnt.Get() == val0+10, "C05 replicas converge afterwards")
+	sv, _, ok := w.serverValue(vfKey)
+	vf.Assert(ok && sv == val0+10, "C05 the server's copy agrees")
+}
